@@ -1,0 +1,264 @@
+// Copyright 2021-present The Atlas Authors. All rights reserved.
+// This source code is licensed under the Apache 2.0 license found
+// in the LICENSE file in the root directory of this source tree.
+
+//go:build verif
+
+package main
+
+// Verification hook (compiled only with the build tag "verif"). It registers the URL scheme
+// "sqlitev://", which behaves like "sqlite://" but opens the database through a database/sql
+// driver that wraps mattn/go-sqlite3 and
+//   - appends one line per database operation to the file named by VERIF_TRACE, and
+//   - kills the process (SIGKILL, no deferred code runs) right before or right after the n-th
+//     operation when VERIF_CRASH_AT=<n>:<before|after> is set.
+// Operations are every Exec/Query that is not a plain SELECT, and every BEGIN/COMMIT/ROLLBACK.
+
+import (
+	"context"
+	"database/sql"
+	"database/sql/driver"
+	"fmt"
+	"net/url"
+	"os"
+	"strconv"
+	"strings"
+	"sync"
+	"syscall"
+
+	"ariga.io/atlas/sql/sqlclient"
+	"ariga.io/atlas/sql/sqlite"
+
+	"github.com/mattn/go-sqlite3"
+)
+
+type (
+	verifDriver struct{}
+	verifConn   struct{ driver.Conn }
+	verifTx     struct{ driver.Tx }
+	verifStmt   struct {
+		driver.Stmt
+		q string
+	}
+)
+
+var verifCtl struct {
+	sync.Mutex
+	n, at int
+	after bool
+	trace *os.File
+}
+
+func init() {
+	if v := os.Getenv("VERIF_CRASH_AT"); v != "" {
+		p := strings.SplitN(v, ":", 2)
+		verifCtl.at, _ = strconv.Atoi(p[0])
+		verifCtl.after = len(p) == 2 && p[1] == "after"
+	}
+	if p := os.Getenv("VERIF_TRACE"); p != "" {
+		verifCtl.trace, _ = os.OpenFile(p, os.O_APPEND|os.O_CREATE|os.O_WRONLY, 0o644)
+	}
+	sql.Register("sqlite3_verif", verifDriver{})
+	sqlclient.Register(
+		"sqlitev",
+		sqlclient.OpenerFunc(func(_ context.Context, u *url.URL) (*sqlclient.Client, error) {
+			dsn := strings.TrimPrefix(u.String(), u.Scheme+"://")
+			db, err := sql.Open("sqlite3_verif", dsn)
+			if err != nil {
+				return nil, err
+			}
+			drv, err := sqlite.Open(db)
+			if err != nil {
+				return nil, err
+			}
+			return &sqlclient.Client{
+				Name:   sqlite.DriverName,
+				DB:     db,
+				URL:    &sqlclient.URL{URL: u, DSN: dsn, Schema: "main"},
+				Driver: drv,
+			}, nil
+		}),
+		sqlclient.RegisterDriverOpener(sqlite.Open),
+		sqlclient.RegisterTxOpener(sqlite.OpenTx),
+	)
+}
+
+func verifKill() {
+	_ = syscall.Kill(os.Getpid(), syscall.SIGKILL)
+	select {}
+}
+
+// verifBegin registers one database operation, kills the process if the crash point is right
+// before it and reports if the crash point is right after it.
+func verifBegin(class, q string) bool {
+	verifCtl.Lock()
+	verifCtl.n++
+	n := verifCtl.n
+	if verifCtl.trace != nil {
+		q1 := strings.Join(strings.Fields(q), " ")
+		if len(q1) > 700 {
+			q1 = q1[:700]
+		}
+		fmt.Fprintf(verifCtl.trace, "%d %s %s\n", n, class, q1)
+	}
+	hit := verifCtl.at == n
+	verifCtl.Unlock()
+	if hit && !verifCtl.after {
+		verifKill()
+	}
+	return hit
+}
+
+// verifOp runs one database operation through the crash points.
+func verifOp(class, q string, fn func() error) error {
+	hit := verifBegin(class, q)
+	err := fn()
+	if hit {
+		verifKill()
+	}
+	return err
+}
+
+// verifRows delays the crash point after a counted query (INSERT ... RETURNING) until its rows are
+// closed, since the driver executes the statement while the rows are read.
+type verifRows struct{ driver.Rows }
+
+func (r *verifRows) Close() error {
+	err := r.Rows.Close()
+	verifKill()
+	return err
+}
+
+func verifQuery(class, q string, fn func() (driver.Rows, error)) (driver.Rows, error) {
+	hit := verifBegin(class, q)
+	rows, err := fn()
+	if hit {
+		if err != nil {
+			verifKill()
+		}
+		return &verifRows{rows}, nil
+	}
+	return rows, err
+}
+
+func verifClass(q string) string {
+	u := strings.ToUpper(strings.TrimSpace(q))
+	switch {
+	case strings.HasPrefix(u, "SELECT"), strings.HasPrefix(u, "PRAGMA") && !strings.Contains(u, "="):
+		if verifCtl.trace != nil && os.Getenv("VERIF_TRACE_READS") != "" {
+			fmt.Fprintf(verifCtl.trace, "- read %.120s\n", strings.Join(strings.Fields(q), " "))
+		}
+		return ""
+	case strings.Contains(u, "ATLAS_SCHEMA_REVISIONS"):
+		return "rev"
+	case strings.HasPrefix(u, "PRAGMA"):
+		return "pragma"
+	default:
+		return "stmt"
+	}
+}
+
+func (verifDriver) Open(dsn string) (driver.Conn, error) {
+	c, err := (&sqlite3.SQLiteDriver{}).Open(dsn)
+	if err != nil {
+		return nil, err
+	}
+	return &verifConn{c}, nil
+}
+
+func (c *verifConn) ExecContext(ctx context.Context, q string, args []driver.NamedValue) (res driver.Result, err error) {
+	run := func() error {
+		res, err = c.Conn.(driver.ExecerContext).ExecContext(ctx, q, args)
+		return err
+	}
+	if cl := verifClass(q); cl != "" {
+		return res, verifOp(cl, verifArgs(args)+q, run)
+	}
+	return res, run()
+}
+
+// verifArgs renders the arguments of an operation for the trace.
+func verifArgs(args []driver.NamedValue) string {
+	if len(args) == 0 {
+		return ""
+	}
+	var b strings.Builder
+	b.WriteString("args[")
+	for i, a := range args {
+		if i > 0 {
+			b.WriteString("|")
+		}
+		v := fmt.Sprint(a.Value)
+		if len(v) > 40 {
+			v = v[:40]
+		}
+		b.WriteString(strings.Join(strings.Fields(strings.ReplaceAll(v, "|", "/")), "_"))
+	}
+	b.WriteString("] ")
+	return b.String()
+}
+
+func (c *verifConn) QueryContext(ctx context.Context, q string, args []driver.NamedValue) (driver.Rows, error) {
+	run := func() (driver.Rows, error) {
+		return c.Conn.(driver.QueryerContext).QueryContext(ctx, q, args)
+	}
+	if cl := verifClass(q); cl != "" {
+		return verifQuery(cl, verifArgs(args)+q, run)
+	}
+	return run()
+}
+
+func (c *verifConn) PrepareContext(ctx context.Context, q string) (driver.Stmt, error) {
+	s, err := c.Conn.(driver.ConnPrepareContext).PrepareContext(ctx, q)
+	if err != nil {
+		return nil, err
+	}
+	return &verifStmt{s, q}, nil
+}
+
+func (c *verifConn) Prepare(q string) (driver.Stmt, error) {
+	return c.PrepareContext(context.Background(), q)
+}
+
+func (c *verifConn) Ping(ctx context.Context) error {
+	return c.Conn.(driver.Pinger).Ping(ctx)
+}
+
+func (c *verifConn) BeginTx(ctx context.Context, opts driver.TxOptions) (tx driver.Tx, err error) {
+	err = verifOp("begin", "BEGIN", func() error {
+		tx, err = c.Conn.(driver.ConnBeginTx).BeginTx(ctx, opts)
+		return err
+	})
+	if err != nil {
+		return nil, err
+	}
+	return &verifTx{tx}, nil
+}
+
+func (c *verifConn) Begin() (driver.Tx, error) {
+	return c.BeginTx(context.Background(), driver.TxOptions{})
+}
+
+func (t *verifTx) Commit() error   { return verifOp("commit", "COMMIT", t.Tx.Commit) }
+func (t *verifTx) Rollback() error { return verifOp("rollback", "ROLLBACK", t.Tx.Rollback) }
+
+func (s *verifStmt) ExecContext(ctx context.Context, args []driver.NamedValue) (res driver.Result, err error) {
+	run := func() error {
+		res, err = s.Stmt.(driver.StmtExecContext).ExecContext(ctx, args)
+		return err
+	}
+	if cl := verifClass(s.q); cl != "" {
+		return res, verifOp(cl, s.q, run)
+	}
+	return res, run()
+}
+
+func (s *verifStmt) QueryContext(ctx context.Context, args []driver.NamedValue) (driver.Rows, error) {
+	run := func() (driver.Rows, error) {
+		return s.Stmt.(driver.StmtQueryContext).QueryContext(ctx, args)
+	}
+	if cl := verifClass(s.q); cl != "" {
+		return verifQuery(cl, s.q, run)
+	}
+	return run()
+}
